@@ -27,6 +27,7 @@ ASSUMPTIONS = [
     "find_headers_and_entries on a subset no outside block jumps into: the documented fallback ([head of the graph], []) or empty lists are both accepted",
     "dominators: >= 1 entry (RuntimeError otherwise, documented); immediate dominators compared only when every block is reachable from an entry (resp. reaches an exit)",
     "plain BasicBlocks without declared back edges; subsets are subsets of the graph's own blocks",
+    "history dimension: one SCFG object edited into the next explored digraph (up to 3 digraphs in a row) through its public mapping and through add_block / remove_blocks, queried after every edit",
 ]
 
 
@@ -219,9 +220,107 @@ def check(desc):
     return fails
 
 
+def live_check(history):
+    """History dimension: ONE SCFG object is queried, edited into the next digraph (alternately through the public
+    mapping `scfg.graph[name] = block` / `del scfg.graph[name]` - the library itself writes to it that way - and through
+    remove_blocks / add_block), and queried again; the answers for the LAST digraph of `history` are compared with
+    the definitional oracles (reachability, SCCs, head, dominators of the graph as it is now)."""
+    from numba_scfg.core.datastructures.scfg import SCFG
+    from numba_scfg.core.datastructures.basic_block import BasicBlock
+    from numba_scfg.core.transformations import _doms, _post_doms
+
+    fails = []
+    g = None
+    for step, desc in enumerate(history):
+        names = desc["names"]
+        tg = [tuple(t) for t in desc["targets"]]
+        N = len(names)
+        if g is None:
+            g = SCFG({names[i]: BasicBlock(names[i], tg[i]) for i in range(N)})
+        else:
+            for i in range(N):
+                cur = g.graph.get(names[i])
+                if cur is not None and tuple(cur._jump_targets) == tg[i]:
+                    continue
+                if (step + i) % 2:
+                    if cur is not None:
+                        del g.graph[names[i]]
+                    g.graph[names[i]] = BasicBlock(names[i], tg[i])
+                else:
+                    if cur is not None:
+                        g.remove_blocks({names[i]})
+                    g.add_block(BasicBlock(names[i], tg[i]))
+            for extra in [n for n in g.graph if n not in names]:
+                del g.graph[extra]
+        last = step == len(history) - 1
+        adj = [[names[j] in tg[i] for j in range(N)] for i in range(N)]
+        R = closure(adj, N)
+        for i in range(N):
+            for j in range(N + 1):
+                end = names[j] if j < N else "ext"
+                e = R[i][j] if j < N else any((i == k or R[i][k]) and "ext" in tg[k] for k in range(N))
+                try:
+                    r = g.is_reachable_dfs(names[i], end)
+                except Exception as ex:
+                    if last:
+                        fails.append({"kind": "query", "signature": "live:reach-" + exc_signature(ex), "detail": str((names[i], end))})
+                    continue
+                if last and bool(r) != bool(e):
+                    fails.append({"kind": "query", "signature": "live:reach-wrong", "detail": str((tg, names[i], end, r, e))[:300]})
+        try:
+            got = sorted(sorted(c) for c in g.compute_scc())
+            exp = sorted({tuple(sorted(names[j] for j in range(N) if j == i or (R[i][j] and R[j][i]))) for i in range(N)})
+            if last and got != [list(c) for c in exp]:
+                fails.append({"kind": "query", "signature": "live:scc-wrong", "detail": str((tg, got, exp))[:300]})
+        except Exception as ex:
+            if last:
+                fails.append({"kind": "query", "signature": "live:scc-" + exc_signature(ex), "detail": repr(ex)})
+        heads = [names[i] for i in range(N) if not any(adj[j][i] for j in range(N))]
+        if len(heads) == 1:
+            try:
+                h = g.find_head()
+                if last and h != heads[0]:
+                    fails.append({"kind": "query", "signature": "live:head-wrong", "detail": str((tg, h, heads))})
+            except Exception as ex:
+                if last:
+                    fails.append({"kind": "query", "signature": "live:head-" + exc_signature(ex), "detail": repr(ex)})
+        for nm, fn, A, ents in (
+            ("dom", _doms, adj, [i for i in range(N) if not any(adj[j][i] for j in range(N))]),
+            ("postdom", _post_doms, [[adj[j][i] for j in range(N)] for i in range(N)], [i for i in range(N) if not any(adj[i][j] for j in range(N))]),
+        ):
+            if not ents:
+                continue
+            try:
+                d = fn(g)
+            except Exception as ex:
+                if last:
+                    fails.append({"kind": "query", "signature": f"live:{nm}-" + exc_signature(ex), "detail": repr(ex)})
+                continue
+            if last:
+                exp = dom_oracle(N, A, ents)
+                if set(d) != set(names) or any(set(d[names[b]]) != {names[a] for a in exp[b]} for b in range(N)):
+                    fails.append({"kind": "query", "signature": f"live:{nm}-wrong", "detail": str((tg, {k: sorted(v) for k, v in d.items()}))[:300]})
+    out, seen = [], set()
+    for f in fails:
+        if f["signature"] not in seen:
+            seen.add(f["signature"])
+            out.append(f)
+    return out
+
+
+_LIVE: dict = {}
+LIVE_DEPTH = 3
+
+
 def harness(E, ctx, aux):
     desc = realise_s4(E, aux)
     ctx.current = desc
+    hist = [h for h in _LIVE.get(len(desc["names"]), []) if h["names"] == desc["names"]][-(LIVE_DEPTH - 1):]
+    _LIVE[len(desc["names"])] = hist + [desc]
+    if hist:
+        for f in live_check(hist + [desc]):
+            ctx.fail(f["kind"], f["signature"], dict(desc, live_history=hist), f["detail"])
+        ctx.extra["live-object-histories"] += 1
     ctx.evaluations += 1
     n_in = sum(1 for t in desc["targets"] for x in t if x != "ext")
     if n_in:
@@ -263,4 +362,8 @@ def jobs(tier):
 
 
 def replay(desc):
-    return check(desc)
+    fails = check(desc)
+    if desc.get("live_history"):
+        d = {k: v for k, v in desc.items() if k != "live_history"}
+        fails += live_check(list(desc["live_history"]) + [d])
+    return fails
